@@ -177,12 +177,13 @@ func buildNest(kinds []string, exit string, level int, pos string) *gen.Program 
 	// the loop counters after the nest are observable too (an exit by break/continue N
 	// must not run a for-loop's increment clause once more); foreach value variables are
 	// left out (what they hold after the loop is not part of the compared domain)
+	nest := build(0)
 	var tail []gen.Expr
 	for i, iv := range idxs {
 		if lps[i].kind != "foreach" {
 			tail = append(tail, iv, &gen.StrLit{S: ","})
 		}
 	}
-	p.Main = []gen.Stmt{build(0), EchoS("end:", tail...)}
+	p.Main = []gen.Stmt{nest, EchoS("end:", tail...)}
 	return p
 }
